@@ -965,7 +965,99 @@ func (g *scGen) cases(tier string) []*scCase {
 		}
 		add(c, fmt.Sprintf("mutations %v", names))
 	}
+	// (g) what the discovery document ADVERTISES x what is CONFIGURED, full cross product: for each of the three support
+	// lists (acr_values_supported, ui_locales_supported, id_token_signing_alg_values_supported) every subset of a small
+	// universe of advertised values against every configured value (unset = the provider's default; each advertised
+	// value; a value the universe does not contain), in every mode x provider where the check applies (standalone and
+	// SSO server; the SSO proxy never fetches the document and gets one row per configured value).
+	for _, dim := range scSupportDims {
+		nsub := 1 << len(dim.universe)
+		discOf := make([]int, nsub)
+		for mask := 0; mask < nsub; mask++ {
+			var adv []string
+			for b, v := range dim.universe {
+				if mask&(1<<b) != 0 {
+					adv = append(adv, v)
+				}
+			}
+			g.rng.Shuffle(len(adv), func(i, j int) { adv[i], adv[j] = adv[j], adv[i] })
+			d := g.prov.disc(g.discOK)
+			switch dim.setting {
+			case scAcrS:
+				d.Acrs = adv
+			case scLocaleS:
+				d.Locales = adv
+			case scAlgS:
+				d.Algs = adv
+			}
+			discOf[mask] = g.prov.add(d)
+		}
+		for mode := 0; mode < 3; mode++ {
+			for _, p := range scProviders {
+				for ci, cv := range dim.configured {
+					for mask := 0; mask < nsub; mask++ {
+						if mode == 2 && mask != (ci*7+len(p))%nsub {
+							continue
+						}
+						chans := []int{g.rng.Intn(2)}
+						if tier == "thorough" {
+							chans = []int{0, 1}
+						}
+						if cv == nil {
+							chans = []int{0}
+						}
+						for _, chn := range chans {
+							c := g.validBase(mode, p)
+							c.Disc = discOf[mask]
+							c.S[dim.setting] = [2]*string{nil, nil}
+							shown := "<unset>"
+							if cv != nil {
+								c.S[dim.setting][chn] = sp(*cv)
+								shown = *cv
+							}
+							add(c, fmt.Sprintf("support mode=%d provider=%s %s[%d]=%q advertised=%q", mode, p, scFlagNames[dim.setting], chn, shown, g.prov.disc(discOf[mask]).list(dim.setting)))
+						}
+					}
+				}
+			}
+		}
+	}
 	return out
+}
+
+// the three support lists of the discovery document: universe of advertised values, and the configured values run against
+// every subset of it (nil = not configured)
+var scSupportDims = []struct {
+	setting    int
+	universe   []string
+	configured []*string
+}{
+	{scAcrS, []string{"idporten-loa-substantial", "idporten-loa-high", "Level3", "Level4", "other-acr"},
+		[]*string{nil, sp("idporten-loa-substantial"), sp("idporten-loa-high"), sp("Level3"), sp("Level4"), sp("other-acr"), sp("Level5")}},
+	{scLocaleS, []string{"nb", "en", "se", "xx"},
+		[]*string{nil, sp("nb"), sp("en"), sp("se"), sp("xx"), sp("nn")}},
+	{scAlgS, []string{"RS256", "ES256", "PS256", "none"},
+		[]*string{nil, sp("RS256"), sp("ES256"), sp("PS256"), sp("none"), sp("HS256"), sp("XX")}},
+}
+
+func (p *scProvider) disc(id int) scDisc {
+	p.mu.Lock()
+	defer p.mu.Unlock()
+	d := p.discs[id]
+	d.Algs = append([]string{}, d.Algs...)
+	d.Acrs = append([]string{}, d.Acrs...)
+	d.Locales = append([]string{}, d.Locales...)
+	return d
+}
+
+func (d scDisc) list(setting int) []string {
+	switch setting {
+	case scAcrS:
+		return d.Acrs
+	case scLocaleS:
+		return d.Locales
+	}
+	return d.Algs
 }
 
 // ---------------------------------------------------------------- in-process parts
